@@ -13,9 +13,8 @@ Proof. exact errno_mapping. Qed.
 
 (** any number of thread and coroutine callers with descriptors of their own and distinct tokens, any
     script (any interleaving of starts, feeds, releases of parked threads, kernel completions in any
-    order, time-limit expiries), as long as none of the two recorded defects is reachable (no coroutine
-    read on a socket with a receive time limit, no coroutine call on a descriptor number that is not
-    open): the run ends normally and every call handed back the answer of its own request *)
+    order, time-limit expiries), as long as the recorded defect is not reachable (no coroutine read on
+    a socket with a receive time limit): the run ends normally and every call handed back the answer of its own request *)
 Theorem C27_holds_outside : forall rs cs script,
   wf_C27 rs cs script = true -> no_defect rs cs = true ->
   ok_C27 rs cs script (run_C27 rs cs script) = true.
@@ -53,11 +52,14 @@ Theorem C27_refuted_timed_out_call_keeps_slot : exists rs cs script,
   /\ existsb (tag_eqb TTimeout) (tags_C27 rs cs script) = true.
 Proof. exact refuted_timed_out. Qed.
 
-(** known finding: a coroutine's call on a descriptor number that is not open aborts the process *)
-Theorem C27_refuted_coroutine_bad_fd_aborts : exists rs cs script,
-  wf_C27 rs cs script = true /\ ok_C27 rs cs script (run_C27 rs cs script) = false
-  /\ existsb (tag_eqb TBadFdCo) (tags_C27 rs cs script) = true.
-Proof. exact refuted_bad_fd. Qed.
+(** repaired finding coroutine_bad_fd_aborts: a call on a descriptor number that is not open comes back
+    with -1/EBADF whether the caller is a coroutine or a plain thread *)
+Theorem C27_bad_fd_any_caller : forall co,
+  let cs := [{| cs_co := co; cs_tok := 1000;
+                cs_prog := [{| c_op := ORead; c_res := 0%nat; c_len := 3; c_hold := false |}] |}] in
+  run_C27 b_rs cs w_script = {| o_calls := [[RErr EBADF]]; o_end := EndOk [0] [[]] |}
+  /\ ok_C27 b_rs cs w_script (run_C27 b_rs cs w_script) = true.
+Proof. exact bad_fd_ok. Qed.
 
 Example C27_nonvacuous :
   let rs := [{| rs_kind := KPipeR; rs_pre := 5; rs_eof := true; rs_timed := false |};
@@ -66,7 +68,8 @@ Example C27_nonvacuous :
              {| rs_kind := KPipeW; rs_pre := 0; rs_eof := true; rs_timed := false |};
              {| rs_kind := KSock; rs_pre := 2; rs_eof := false; rs_timed := true |};
              {| rs_kind := KSealed; rs_pre := 0; rs_eof := true; rs_timed := false |};
-             {| rs_kind := KSealed; rs_pre := 0; rs_eof := true; rs_timed := false |}] in
+             {| rs_kind := KSealed; rs_pre := 0; rs_eof := true; rs_timed := false |};
+             {| rs_kind := KClosed; rs_pre := 0; rs_eof := false; rs_timed := false |}] in
   let cs := [{| cs_co := true; cs_tok := 1000;
                 cs_prog := [{| c_op := ORead; c_res := 0%nat; c_len := 3; c_hold := false |};
                             {| c_op := ORead; c_res := 0%nat; c_len := 8; c_hold := false |};
@@ -83,7 +86,8 @@ Example C27_nonvacuous :
              {| cs_co := true; cs_tok := 1003;
                 cs_prog := [{| c_op := OWrite; c_res := 5%nat; c_len := 4; c_hold := false |};
                             {| c_op := ORead; c_res := 5%nat; c_len := 3; c_hold := false |};
-                            {| c_op := OSend; c_res := 5%nat; c_len := 1; c_hold := false |}] |}] in
+                            {| c_op := OSend; c_res := 5%nat; c_len := 1; c_hold := false |};
+                            {| c_op := OWrite; c_res := 7%nat; c_len := 2; c_hold := false |}] |}] in
   let script := [EStart 1%nat; EStart 0%nat; EComplete 0%nat; EFeed 1%nat 4 false; EStart 2%nat; EReg 1%nat;
                  EStart 3%nat; EComplete 1%nat; ETimeout 0%nat; ESleep] in
   wf_C27 rs cs script = true /\ no_defect rs cs = true
@@ -91,8 +95,8 @@ Example C27_nonvacuous :
      {| o_calls := [[RRet 3 [2; 9; 16]; RRet 2 [23; 30]; RRet 0 []; RErr ENOTSOCK];
                     [RRet 4 [55; 62; 69; 76]; RErr EBADF; RRet 2 []];
                     [RErr EPIPE; RRet 2 [214; 221]; RErr EPERM];
-                    [RErr EPERM; RRet 0 []; RErr ENOTSOCK]];
-        o_end := EndOk [0; 0; 0; 0; 0; 0; 0] [[]; [55; 62]; []; []; []; []; []] |}.
+                    [RErr EPERM; RRet 0 []; RErr ENOTSOCK; RErr EBADF]];
+        o_end := EndOk [0; 0; 0; 0; 0; 0; 0; 0] [[]; [55; 62]; []; []; []; []; []; []] |}.
 Proof. repeat split; vm_compute; reflexivity. Qed.
 
 Print Assumptions C27_errno_mapping.
@@ -100,4 +104,4 @@ Print Assumptions C27_holds_outside.
 Print Assumptions C27_own_completion.
 Print Assumptions C27_call_spec.
 Print Assumptions C27_refuted_timed_out_call_keeps_slot.
-Print Assumptions C27_refuted_coroutine_bad_fd_aborts.
+Print Assumptions C27_bad_fd_any_caller.
